@@ -375,6 +375,23 @@ def unit_pointwise_norm(p, k=2):
     return Unit('pointwise-norm/p=%s/k=%d' % (p, k), run, funcs=[TOPS + 'PointwiseNorm.derivative'], config={'exponent': p, 'components': k})
 
 
+def unit_operator_pool_bounded():
+    """BOUNDED stand-in (never counted as proved) for the derivatives outside the deductive units: for one small instance per operator class / option (contracts/oppool.py)
+    and 3 random points / directions on real spaces, derivative(x)(d) agrees with central differences of the operator (h = 1e-3, 1e-4)."""
+    def run(ctx):
+        from contracts import oppool
+        for name in oppool.pool():
+            try:
+                bad, note = oppool.check_derivative(name)
+            except Exception as e:
+                bad, note = 'raised %s: %s' % (type(e).__name__, str(e)[:160]), None
+            if note:
+                continue
+            ctx.bounded('library operator: derivative(x)(d) == central difference of the operator', not bad, {'operator': name}, detail=bad)
+    return Unit('operator-pool/derivative', run, funcs=['odl.operator.tensor_ops:*.derivative', 'odl.operator.pspace_ops:*.derivative', 'odl.operator.default_ops:*.derivative',
+                'odl.ufunc_ops.ufunc_ops:*.derivative'], kind='B', bounded_in='one small instance per operator class / option in contracts/oppool.py, 3 random points each')
+
+
 def unit_canary():
     """must-fail: chain rule taken at the outer point x0 instead of the inner point B(x0)"""
     def run(ctx):
@@ -406,10 +423,18 @@ def units(tier, seed):
     for p in (2, 3, 1.5, 1):
         us.append(unit_pointwise_norm(p))
     us.append(unit_pointwise_norm(2, k=3))
+    us.append(unit_operator_pool_bounded())
     us.append(unit_canary())
     return us
 
 
 def replay(ob):
+    if ob.get('unit', '').startswith('operator-pool/'):
+        from contracts import oppool
+        try:
+            bad = oppool.check_derivative((ob.get('model') or {}).get('operator'))[0]
+        except Exception as e:
+            bad = 'raised %s: %s' % (type(e).__name__, e)
+        return {'reproduced': bool(bad), 'detail': bad or 'holds natively', 'input': ob.get('model')}
     from contracts import replay_deriv
     return replay_deriv.replay(ob)
